@@ -510,6 +510,25 @@ def run_cart(c, tier, rng, rd, exe):
 # (b) AMRDensityGrid
 # ------------------------------------------------------------------------------------------------------------------
 def run_amrgrid(c, tier, rng, rd, exe):
+    # Layer B: the traversal through a refined forest (spec/AMRMarch.tla: nearest wall with the x > y > z tie rule, neighbour
+    # pointer, descent to the leaf containing the crossing point) refines the closed-form geometry on the finest lattice
+    mcfgs = [dict(nb=(1, 1, 1), D=2, leaves="MC_Leaves1", starts="MC_Starts16", dmax=1)]
+    if tier != "quick":
+        mcfgs = [dict(nb=(1, 1, 1), D=2, leaves="MC_Leaves1", starts="MC_Starts16", dmax=2),
+                 dict(nb=(2, 1, 1), D=1, leaves="MC_Leaves2", starts="MC_Starts8", dmax=3)]
+
+    def mjob(k):
+        m = mcfgs[k]
+        cfg = os.path.join(rd, "amrmarch_%d.cfg" % k)
+        open(cfg, "w").write("CONSTANTS NBX = %d NBY = %d NBZ = %d D = %d DMax = %d\nLeaves <- %s\nKapOf <- MC_Kap\nTaus2 <- MC_Taus\n"
+                             "Starts1D <- %s\nSPECIFICATION Spec\nINVARIANTS MarchRefinesGeometry\nPROPERTY Terminates\nCHECK_DEADLOCK FALSE\n" % (
+                                 m["nb"] + (m["D"], m["dmax"], m["leaves"], m["starts"])))
+        return m, vlib.tlc_model("MC_AMRMarch.tla", cfg, rd, workers=6, timeout=5000, must_take=("Step",), tag="amrmarch_%d" % k)
+
+    with ThreadPoolExecutor(max_workers=2) as ex:
+        for m, r in ex.map(mjob, range(len(mcfgs))):
+            c.add_model("AMRMarch refines RayLattice over AMRTree (MarchRefinesGeometry, Terminates)", r,
+                        "blocks %s depth %d tree %s, start sub-lattice %s, directions in -%d..%d" % (m["nb"], m["D"], m["leaves"], m["starts"], m["dmax"], m["dmax"]))
     shapes = [(1, 1, 1), (1, 2, 1), (3, 1, 1), (1, 1, 3), (1, 3, 2), (3, 1, 2)]
     ngrid = 16 if tier == "quick" else 120
     nray = 30 if tier == "quick" else 80
